@@ -2,6 +2,7 @@ import I18nVerif.Spec.Subst
 namespace I18nVerif.Foreign
 open I18nVerif I18nVerif.Subst
 /-! Helper lemmas for C06 -/
+set_option linter.unusedSectionVars false
 theorem countFor_litDec {t l c} (h : countFor t l = some (.ok c)) : litDec l = some c := by
   cases l <;> simp only [countFor, litDec] at h ⊢
   all_goals (try split at h) <;> (try split at h) <;> simp_all
@@ -10,7 +11,8 @@ theorem populate_ranges_inv {orc locale args ck t bs v'}
     (h : populate orc locale args (.ranges ck t bs) = .ok v') :
     (∃ k' bs', populateB orc locale args bs = .ok bs' ∧ v' = .ranges k' t bs' ∧
         ∀ ρ : Eval.Env, substCount ρ args ck = ρ.count k') ∨
-    (∃ c, findValue orc locale args c bs = .ok v' ∧ ∀ ρ : Eval.Env, substCount ρ args ck = c) := by
+    (∃ c, findValue orc locale args c bs = .ok v' ∧ isLitCount args = true ∧
+        ∀ ρ : Eval.Env, substCount ρ args ck = c) := by
   simp only [populate] at h
   split at h
   · rename_i hg
@@ -22,7 +24,7 @@ theorem populate_ranges_inv {orc locale args ck t bs v'}
     · rename_i l
       split at h <;> try (simp at h; done)
       rename_i c hc
-      exact .inr ⟨c, h, fun ρ => by simp [substCount, hg, countFor_litDec hc]⟩
+      exact .inr ⟨c, h, by simp [isLitCount, hg], fun ρ => by simp [substCount, hg, countFor_litDec hc]⟩
     · rename_i vs
       split at h <;> try (simp at h; done)
       rename_i key hk
@@ -49,7 +51,7 @@ theorem populate_plurals_inv {orc locale args rule ck other forms v'}
     (h : populate orc locale args (.plurals rule ck other forms) = .ok v') :
     (∃ k' o fs, populate orc locale args other = .ok o ∧ populateF orc locale args forms = .ok fs ∧
         v' = .plurals rule k' o fs ∧ ∀ ρ : Eval.Env, substCount ρ args ck = ρ.count k') ∨
-    (∃ l d f, litDec l = some d ∧ (∀ ρ : Eval.Env, substCount ρ args ck = d) ∧
+    (∃ l d f, litDec l = some d ∧ isLitCount args = true ∧ (∀ ρ : Eval.Env, substCount ρ args ck = d) ∧
         orc.cat locale rule (operandKey l) = some f ∧
         ((f = .other ∧ populate orc locale args other = .ok v') ∨
          (match selectForm orc locale args f forms with
@@ -78,9 +80,9 @@ theorem populate_plurals_inv {orc locale args rule ck other forms v'}
         split at h
         · simp at h
         · rename_i hc
-          exact .inr ⟨l, d, _, hd, fun ρ => by simp [substCount, hg, hd], hc, .inl ⟨rfl, h⟩⟩
+          exact .inr ⟨l, d, _, hd, by simp [isLitCount, hg], fun ρ => by simp [substCount, hg, hd], hc, .inl ⟨rfl, h⟩⟩
         · rename_i f hno hc
-          exact .inr ⟨l, d, f, hd, fun ρ => by simp [substCount, hg, hd], hc, .inr h⟩
+          exact .inr ⟨l, d, f, hd, by simp [isLitCount, hg], fun ρ => by simp [substCount, hg, hd], hc, .inr h⟩
     · rename_i vs
       split at h <;> try (simp at h; done)
       rename_i key hk
@@ -92,21 +94,23 @@ theorem populate_plurals_inv {orc locale args rule ck other forms v'}
 
 /-! ### `populate` is substitution -/
 
-theorem list_inv {α β : Type} {a : Res α} {b : Res (List β)} {g : α → β} {l' : List β}
-    (h : (match a with
-      | .err e => Res.err e
-      | .panic p => .panic p
-      | .ok x' =>
-        match b with
-        | .ok xs' => .ok (g x' :: xs')
-        | .err e => .err e
-        | .panic p => .panic p) = .ok l') :
-    ∃ x' xs', a = .ok x' ∧ b = .ok xs' ∧ l' = g x' :: xs' := by
-  split at h <;> try (simp at h; done)
-  split at h <;> simp at h
-  exact ⟨_, _, rfl, rfl, h.symm⟩
+theorem eval_plurals (ρ : Eval.Env) (rule ck other forms) :
+    Eval.eval ρ (.plurals rule ck other forms) =
+      (Eval.evalForm ρ (ρ.cat rule (ρ.count ck)) forms).getD (Eval.eval ρ other) := by
+  simp only [Eval.eval]; split <;> simp [*]
+
+theorem eval_plurals_subst (ρ : Eval.Env) (args rule ck other forms) :
+    Eval.eval (substEnv ρ args) (.plurals rule ck other forms) =
+      (Eval.evalForm (substEnv ρ args) (ρ.cat rule (substCount ρ args ck)) forms).getD
+        (Eval.eval (substEnv ρ args) other) := eval_plurals _ _ _ _ _
+
+theorem eval_ranges_subst (ρ : Eval.Env) (args ck t bs) :
+    Eval.eval (substEnv ρ args) (.ranges ck t bs) =
+      Eval.evalBranches (substEnv ρ args) (substCount ρ args ck) bs := by
+  simp only [Eval.eval]; rfl
 
 section
+set_option linter.unusedSectionVars false
 variable (orc : Oracle) (locale : Str) (args : List (Str × PV)) (ρ : Eval.Env)
   (hO : OracleAgrees orc locale ρ)
 include hO
@@ -145,38 +149,29 @@ theorem populate_subst : ∀ (v v' : PV), PluralsWf v = true →
   | .subkeys _, v', _, h => by simp [populate] at h
   | .ranges ck t bs, v', hw, h => by
     simp only [PluralsWf] at hw
-    rcases populate_ranges_inv h with ⟨k', bs', hb, rfl, hc⟩ | ⟨c, hf, hc⟩
-    · simp only [Eval.eval]
+    rcases populate_ranges_inv h with ⟨k', bs', hb, rfl, hc⟩ | ⟨c, hf, _, hc⟩
+    · rw [eval_ranges_subst, hc]
+      simp only [Eval.eval]
       rw [populateB_subst bs bs' hw hb]
-      show _ = Eval.evalBranches _ (substCount ρ args ck) bs
-      rw [hc]
-    · simp only [Eval.eval]
-      show _ = Eval.evalBranches _ (substCount ρ args ck) bs
-      rw [hc]
+    · rw [eval_ranges_subst, hc]
       exact findValue_subst c bs v' hw hf
   | .plurals rule ck other forms, v', hw, h => by
     simp only [PluralsWf, Bool.and_eq_true] at hw
-    rcases populate_plurals_inv h with ⟨k', o, fs, ho, hf, rfl, hc⟩ | ⟨l, d, f, hd, hc, hcat, hsel⟩
-    · simp only [Eval.eval]
-      show _ = match Eval.evalForm (substEnv ρ args) (ρ.cat rule (substCount ρ args ck)) forms with
-        | some s => s
-        | none => Eval.eval (substEnv ρ args) other
-      rw [hc, populateF_subst forms fs hw.2 hf, populate_subst other o hw.1 ho]
+    rcases populate_plurals_inv h with ⟨k', o, fs, ho, hf, rfl, hc⟩ | ⟨l, d, f, hd, _, hc, hcat, hsel⟩
+    · rw [eval_plurals_subst, eval_plurals, hc, populateF_subst forms fs hw.2 hf,
+        populate_subst other o hw.1 ho]
     · have hf := hO rule l d f hd hcat
-      simp only [Eval.eval]
-      show _ = match Eval.evalForm (substEnv ρ args) (ρ.cat rule (substCount ρ args ck)) forms with
-        | some s => s
-        | none => Eval.eval (substEnv ρ args) other
-      rw [hc, ← hf]
+      rw [eval_plurals_subst, hc, ← hf]
       have hsf := selectForm_subst f forms hw.2
       rcases hsel with ⟨rfl, ho⟩ | hsel
-      · rw [hsf.2.2 rfl, populate_subst other v' hw.1 ho]
+      · rw [hsf.2.2 rfl, populate_subst other v' hw.1 ho]; rfl
       · split at hsel
         · rename_i r hr
           subst hsel
-          rw [hsf.2.1 v' hr]
+          rw [hsf.2.1 v' hr]; rfl
         · rename_i hr
-          rw [hsf.1 hr, populate_subst other v' hw.1 hsel]
+          rw [hsf.1 hr, populate_subst other v' hw.1 hsel]; rfl
+termination_by structural x => x
 
 theorem populateL_subst : ∀ (l l' : List PV), PluralsWfL l = true →
     populateL orc locale args l = .ok l' → Eval.evalL ρ l' = Eval.evalL (substEnv ρ args) l
@@ -185,8 +180,13 @@ theorem populateL_subst : ∀ (l l' : List PV), PluralsWfL l = true →
   | x :: xs, l', hw, h => by
     simp only [populateL] at h
     simp only [PluralsWfL, Bool.and_eq_true] at hw
-    obtain ⟨x', xs', hx, hxs, rfl⟩ := list_inv (g := id) h
-    simp only [id, Eval.evalL, populate_subst x x' hw.1 hx, populateL_subst xs xs' hw.2 hxs]
+    split at h <;> try (simp at h; done)
+    rename_i x' hx
+    split at h <;> simp at h
+    rename_i xs' hxs
+    subst h
+    simp only [Eval.evalL, populate_subst x x' hw.1 hx, populateL_subst xs xs' hw.2 hxs]
+termination_by structural x => x
 
 theorem populateB_subst : ∀ (bs bs' : List (Range × PV)), PluralsWfB bs = true →
     populateB orc locale args bs = .ok bs' →
@@ -196,9 +196,13 @@ theorem populateB_subst : ∀ (bs bs' : List (Range × PV)), PluralsWfB bs = tru
   | (r, x) :: xs, l', hw, h => by
     simp only [populateB] at h
     simp only [PluralsWfB, Bool.and_eq_true] at hw
-    obtain ⟨x', xs', hx, hxs, rfl⟩ := list_inv (g := fun y => (r, y)) h
-    intro c
+    split at h <;> try (simp at h; done)
+    rename_i x' hx
+    split at h <;> simp at h
+    rename_i xs' hxs
+    subst h
     simp only [Eval.evalBranches, populate_subst x x' hw.1 hx, populateB_subst xs xs' hw.2 hxs]
+termination_by structural x => x
 
 theorem populateF_subst : ∀ (fs fs' : List (Form × PV)), PluralsWfF fs = true →
     populateF orc locale args fs = .ok fs' →
@@ -208,9 +212,13 @@ theorem populateF_subst : ∀ (fs fs' : List (Form × PV)), PluralsWfF fs = true
   | (r, x) :: xs, l', hw, h => by
     simp only [populateF] at h
     simp only [PluralsWfF, Bool.and_eq_true] at hw
-    obtain ⟨x', xs', hx, hxs, rfl⟩ := list_inv (g := fun y => (r, y)) h
-    intro c
+    split at h <;> try (simp at h; done)
+    rename_i x' hx
+    split at h <;> simp at h
+    rename_i xs' hxs
+    subst h
     simp only [Eval.evalForm, populate_subst x x' hw.1.2 hx, populateF_subst xs xs' hw.2 hxs]
+termination_by structural x => x
 
 theorem findValue_subst (c : Dec) : ∀ (bs : List (Range × PV)) (v' : PV), PluralsWfB bs = true →
     findValue orc locale args c bs = .ok v' →
@@ -223,6 +231,7 @@ theorem findValue_subst (c : Dec) : ∀ (bs : List (Range × PV)) (v' : PV), Plu
     split at h
     · rename_i hm; rw [if_pos hm]; exact populate_subst x v' hw.1 h
     · rename_i hm; rw [if_neg hm]; exact findValue_subst c xs v' hw.2 h
+termination_by structural x => x
 
 theorem selectForm_subst (f : Form) : ∀ (fs : List (Form × PV)), PluralsWfF fs = true →
     (selectForm orc locale args f fs = none → Eval.evalForm (substEnv ρ args) f fs = none) ∧
@@ -246,7 +255,1350 @@ theorem selectForm_subst (f : Form) : ∀ (fs : List (Form × PV)), PluralsWfF f
         cases f' <;> simp_all
     · simp only [hff]
       exact ih
+termination_by structural x => x
 end
 end
+
+/-! ### `populate` preserves `NoNotSet` -/
+
+theorem NoNotSetK_get {args : List (Str × PV)} {k a} (h : NoNotSetK args = true)
+    (hg : AMap.get? k args = some a) : NoNotSet a = true := by
+  induction args with
+  | nil => simp [AMap.get?] at hg
+  | cons x xs ih =>
+    obtain ⟨k', v⟩ := x
+    simp only [NoNotSetK, Bool.and_eq_true] at h
+    simp only [AMap.get?] at hg
+    split at hg
+    · simp only [Option.some.injEq] at hg; subst hg; exact h.1
+    · exact ih h.2 hg
+
+section
+variable (orc : Oracle) (locale : Str) (args : List (Str × PV)) (hA : NoNotSetK args = true)
+include hA
+
+mutual
+theorem populate_NoNotSet : ∀ (v v' : PV), NoNotSet v = true →
+    populate orc locale args v = .ok v' → NoNotSet v' = true
+  | .dflt, v', _, h => by
+    simp only [populate, Res.ok.injEq] at h; subst h; simp [NoNotSet]
+  | .lit l, v', _, h => by
+    simp only [populate, Res.ok.injEq] at h; subst h; simp [NoNotSet]
+  | .fk (.set inner), v', hw, h => by
+    simp only [populate] at h
+    simp only [NoNotSet] at hw
+    exact populate_NoNotSet inner v' hw h
+  | .fk (.notSet p a), v', hw, h => by
+    simp only [populate, Res.ok.injEq] at h; subst h; exact hw
+  | .var key f, v', _, h => by
+    simp only [populate] at h
+    split at h <;> simp only [Res.ok.injEq] at h <;> subst h
+    · exact NoNotSetK_get hA ‹_›
+    · simp [NoNotSet]
+  | .comp key inner, v', hw, h => by
+    simp only [populate] at h
+    simp only [NoNotSet] at hw
+    split at h <;> simp at h
+    subst h
+    rename_i i hi
+    simp only [NoNotSet]
+    exact populate_NoNotSet inner i hw hi
+  | .bloc items, v', hw, h => by
+    simp only [populate] at h
+    simp only [NoNotSet] at hw
+    split at h <;> simp at h
+    subst h
+    rename_i l hl
+    simp only [NoNotSet]
+    exact populateL_NoNotSet items l hw hl
+  | .subkeys _, v', _, h => by simp [populate] at h
+  | .ranges ck t bs, v', hw, h => by
+    simp only [NoNotSet] at hw
+    rcases populate_ranges_inv h with ⟨k', bs', hb, rfl, _⟩ | ⟨c, hf, _, _⟩
+    · simp only [NoNotSet]
+      exact populateB_NoNotSet bs bs' hw hb
+    · exact findValue_NoNotSet c bs v' hw hf
+  | .plurals rule ck other forms, v', hw, h => by
+    simp only [NoNotSet, Bool.and_eq_true] at hw
+    rcases populate_plurals_inv h with ⟨k', o, fs, ho, hf, rfl, _⟩ | ⟨l, d, f, _, _, _, _, hsel⟩
+    · simp only [NoNotSet, Bool.and_eq_true]
+      exact ⟨populate_NoNotSet other o hw.1 ho, populateF_NoNotSet forms fs hw.2 hf⟩
+    · rcases hsel with ⟨_, ho⟩ | hsel
+      · exact populate_NoNotSet other v' hw.1 ho
+      · split at hsel
+        · rename_i r hr
+          subst hsel
+          exact selectForm_NoNotSet f forms v' hw.2 hr
+        · exact populate_NoNotSet other v' hw.1 hsel
+termination_by structural x => x
+
+theorem populateL_NoNotSet : ∀ (l l' : List PV), NoNotSetL l = true →
+    populateL orc locale args l = .ok l' → NoNotSetL l' = true
+  | [], l', _, h => by
+    simp only [populateL, Res.ok.injEq] at h; subst h; simp [NoNotSetL]
+  | x :: xs, l', hw, h => by
+    simp only [populateL] at h
+    simp only [NoNotSetL, Bool.and_eq_true] at hw
+    split at h <;> try (simp at h; done)
+    rename_i x' hx
+    split at h <;> simp at h
+    rename_i xs' hxs
+    subst h
+    simp only [NoNotSetL, Bool.and_eq_true]
+    exact ⟨populate_NoNotSet x x' hw.1 hx, populateL_NoNotSet xs xs' hw.2 hxs⟩
+termination_by structural x => x
+
+theorem populateB_NoNotSet : ∀ (bs bs' : List (Range × PV)), NoNotSetB bs = true →
+    populateB orc locale args bs = .ok bs' → NoNotSetB bs' = true
+  | [], l', _, h => by
+    simp only [populateB, Res.ok.injEq] at h; subst h; simp [NoNotSetB]
+  | (r, x) :: xs, l', hw, h => by
+    simp only [populateB] at h
+    simp only [NoNotSetB, Bool.and_eq_true] at hw
+    split at h <;> try (simp at h; done)
+    rename_i x' hx
+    split at h <;> simp at h
+    rename_i xs' hxs
+    subst h
+    simp only [NoNotSetB, Bool.and_eq_true]
+    exact ⟨populate_NoNotSet x x' hw.1 hx, populateB_NoNotSet xs xs' hw.2 hxs⟩
+termination_by structural x => x
+
+theorem populateF_NoNotSet : ∀ (fs fs' : List (Form × PV)), NoNotSetF fs = true →
+    populateF orc locale args fs = .ok fs' → NoNotSetF fs' = true
+  | [], l', _, h => by
+    simp only [populateF, Res.ok.injEq] at h; subst h; simp [NoNotSetF]
+  | (r, x) :: xs, l', hw, h => by
+    simp only [populateF] at h
+    simp only [NoNotSetF, Bool.and_eq_true] at hw
+    split at h <;> try (simp at h; done)
+    rename_i x' hx
+    split at h <;> simp at h
+    rename_i xs' hxs
+    subst h
+    simp only [NoNotSetF, Bool.and_eq_true]
+    exact ⟨populate_NoNotSet x x' hw.1 hx, populateF_NoNotSet xs xs' hw.2 hxs⟩
+termination_by structural x => x
+
+theorem findValue_NoNotSet (c : Dec) : ∀ (bs : List (Range × PV)) (v' : PV), NoNotSetB bs = true →
+    findValue orc locale args c bs = .ok v' → NoNotSet v' = true
+  | [], v', _, h => by simp [findValue] at h
+  | (r, x) :: xs, v', hw, h => by
+    simp only [findValue] at h
+    simp only [NoNotSetB, Bool.and_eq_true] at hw
+    split at h
+    · exact populate_NoNotSet x v' hw.1 h
+    · exact findValue_NoNotSet c xs v' hw.2 h
+termination_by structural x => x
+
+theorem selectForm_NoNotSet (f : Form) : ∀ (fs : List (Form × PV)) (v' : PV), NoNotSetF fs = true →
+    selectForm orc locale args f fs = some (.ok v') → NoNotSet v' = true
+  | [], v', _, h => by simp [selectForm] at h
+  | (f', x) :: xs, v', hw, h => by
+    simp only [NoNotSetF, Bool.and_eq_true] at hw
+    simp only [selectForm] at h
+    split at h
+    · simp only [Option.some.injEq] at h
+      exact populate_NoNotSet x v' hw.1 h
+    · exact selectForm_NoNotSet f xs v' hw.2 h
+termination_by structural x => x
+end
+end
+
+/-! ### `populate` preserves `PluralsWf` -/
+
+theorem PluralsWfK_get {args : List (Str × PV)} {k a} (h : PluralsWfK args = true)
+    (hg : AMap.get? k args = some a) : PluralsWf a = true := by
+  induction args with
+  | nil => simp [AMap.get?] at hg
+  | cons x xs ih =>
+    obtain ⟨k', v⟩ := x
+    simp only [PluralsWfK, Bool.and_eq_true] at h
+    simp only [AMap.get?] at hg
+    split at hg
+    · simp only [Option.some.injEq] at hg; subst hg; exact h.1
+    · exact ih h.2 hg
+
+section
+variable (orc : Oracle) (locale : Str) (args : List (Str × PV)) (hA : PluralsWfK args = true)
+include hA
+
+mutual
+theorem populate_PluralsWf : ∀ (v v' : PV), PluralsWf v = true →
+    populate orc locale args v = .ok v' → PluralsWf v' = true
+  | .dflt, v', _, h => by
+    simp only [populate, Res.ok.injEq] at h; subst h; simp [PluralsWf]
+  | .lit l, v', _, h => by
+    simp only [populate, Res.ok.injEq] at h; subst h; simp [PluralsWf]
+  | .fk (.set inner), v', hw, h => by
+    simp only [populate] at h
+    simp only [PluralsWf] at hw
+    exact populate_PluralsWf inner v' hw h
+  | .fk (.notSet p a), v', hw, h => by
+    simp only [populate, Res.ok.injEq] at h; subst h; exact hw
+  | .var key f, v', _, h => by
+    simp only [populate] at h
+    split at h <;> simp only [Res.ok.injEq] at h <;> subst h
+    · exact PluralsWfK_get hA ‹_›
+    · simp [PluralsWf]
+  | .comp key inner, v', hw, h => by
+    simp only [populate] at h
+    simp only [PluralsWf] at hw
+    split at h <;> simp at h
+    subst h
+    rename_i i hi
+    simp only [PluralsWf]
+    exact populate_PluralsWf inner i hw hi
+  | .bloc items, v', hw, h => by
+    simp only [populate] at h
+    simp only [PluralsWf] at hw
+    split at h <;> simp at h
+    subst h
+    rename_i l hl
+    simp only [PluralsWf]
+    exact populateL_PluralsWf items l hw hl
+  | .subkeys _, v', _, h => by simp [populate] at h
+  | .ranges ck t bs, v', hw, h => by
+    simp only [PluralsWf] at hw
+    rcases populate_ranges_inv h with ⟨k', bs', hb, rfl, _⟩ | ⟨c, hf, _, _⟩
+    · simp only [PluralsWf]
+      exact populateB_PluralsWf bs bs' hw hb
+    · exact findValue_PluralsWf c bs v' hw hf
+  | .plurals rule ck other forms, v', hw, h => by
+    simp only [PluralsWf, Bool.and_eq_true] at hw
+    rcases populate_plurals_inv h with ⟨k', o, fs, ho, hf, rfl, _⟩ | ⟨l, d, f, _, _, _, _, hsel⟩
+    · simp only [PluralsWf, Bool.and_eq_true]
+      exact ⟨populate_PluralsWf other o hw.1 ho, populateF_PluralsWf forms fs hw.2 hf⟩
+    · rcases hsel with ⟨_, ho⟩ | hsel
+      · exact populate_PluralsWf other v' hw.1 ho
+      · split at hsel
+        · rename_i r hr
+          subst hsel
+          exact selectForm_PluralsWf f forms v' hw.2 hr
+        · exact populate_PluralsWf other v' hw.1 hsel
+termination_by structural x => x
+
+theorem populateL_PluralsWf : ∀ (l l' : List PV), PluralsWfL l = true →
+    populateL orc locale args l = .ok l' → PluralsWfL l' = true
+  | [], l', _, h => by
+    simp only [populateL, Res.ok.injEq] at h; subst h; simp [PluralsWfL]
+  | x :: xs, l', hw, h => by
+    simp only [populateL] at h
+    simp only [PluralsWfL, Bool.and_eq_true] at hw
+    split at h <;> try (simp at h; done)
+    rename_i x' hx
+    split at h <;> simp at h
+    rename_i xs' hxs
+    subst h
+    simp only [PluralsWfL, Bool.and_eq_true]
+    exact ⟨populate_PluralsWf x x' hw.1 hx, populateL_PluralsWf xs xs' hw.2 hxs⟩
+termination_by structural x => x
+
+theorem populateB_PluralsWf : ∀ (bs bs' : List (Range × PV)), PluralsWfB bs = true →
+    populateB orc locale args bs = .ok bs' → PluralsWfB bs' = true
+  | [], l', _, h => by
+    simp only [populateB, Res.ok.injEq] at h; subst h; simp [PluralsWfB]
+  | (r, x) :: xs, l', hw, h => by
+    simp only [populateB] at h
+    simp only [PluralsWfB, Bool.and_eq_true] at hw
+    split at h <;> try (simp at h; done)
+    rename_i x' hx
+    split at h <;> simp at h
+    rename_i xs' hxs
+    subst h
+    simp only [PluralsWfB, Bool.and_eq_true]
+    exact ⟨populate_PluralsWf x x' hw.1 hx, populateB_PluralsWf xs xs' hw.2 hxs⟩
+termination_by structural x => x
+
+theorem populateF_PluralsWf : ∀ (fs fs' : List (Form × PV)), PluralsWfF fs = true →
+    populateF orc locale args fs = .ok fs' → PluralsWfF fs' = true
+  | [], l', _, h => by
+    simp only [populateF, Res.ok.injEq] at h; subst h; simp [PluralsWfF]
+  | (r, x) :: xs, l', hw, h => by
+    simp only [populateF] at h
+    simp only [PluralsWfF, Bool.and_eq_true] at hw
+    split at h <;> try (simp at h; done)
+    rename_i x' hx
+    split at h <;> simp at h
+    rename_i xs' hxs
+    subst h
+    simp only [PluralsWfF, Bool.and_eq_true]
+    exact ⟨⟨hw.1.1, populate_PluralsWf x x' hw.1.2 hx⟩, populateF_PluralsWf xs xs' hw.2 hxs⟩
+termination_by structural x => x
+
+theorem findValue_PluralsWf (c : Dec) : ∀ (bs : List (Range × PV)) (v' : PV), PluralsWfB bs = true →
+    findValue orc locale args c bs = .ok v' → PluralsWf v' = true
+  | [], v', _, h => by simp [findValue] at h
+  | (r, x) :: xs, v', hw, h => by
+    simp only [findValue] at h
+    simp only [PluralsWfB, Bool.and_eq_true] at hw
+    split at h
+    · exact populate_PluralsWf x v' hw.1 h
+    · exact findValue_PluralsWf c xs v' hw.2 h
+termination_by structural x => x
+
+theorem selectForm_PluralsWf (f : Form) : ∀ (fs : List (Form × PV)) (v' : PV), PluralsWfF fs = true →
+    selectForm orc locale args f fs = some (.ok v') → PluralsWf v' = true
+  | [], v', _, h => by simp [selectForm] at h
+  | (f', x) :: xs, v', hw, h => by
+    simp only [PluralsWfF, Bool.and_eq_true] at hw
+    simp only [selectForm] at h
+    split at h
+    · simp only [Option.some.injEq] at h
+      exact populate_PluralsWf x v' hw.1.2 h
+    · exact selectForm_PluralsWf f xs v' hw.2 h
+termination_by structural x => x
+end
+end
+
+/-! ### subkey groups are rejected -/
+section
+variable (orc : Oracle) (locale : Str) (args : List (Str × PV))
+
+mutual
+theorem populate_hasSubkeys : ∀ (v v' : PV), HasSubkeys (isLitCount args) v = true →
+    populate orc locale args v ≠ .ok v'
+  | .dflt, v', hs, h => by simp [HasSubkeys] at hs
+  | .lit l, v', hs, h => by simp [HasSubkeys] at hs
+  | .var k f, v', hs, h => by simp [HasSubkeys] at hs
+  | .fk (.notSet p a), v', hs, h => by simp [HasSubkeys] at hs
+  | .subkeys _, v', _, h => by simp [populate] at h
+  | .fk (.set inner), v', hs, h => by
+    simp only [populate] at h
+    simp only [HasSubkeys] at hs
+    exact populate_hasSubkeys inner v' hs h
+  | .comp key inner, v', hs, h => by
+    simp only [populate] at h
+    simp only [HasSubkeys] at hs
+    split at h <;> simp at h
+    rename_i i hi
+    exact populate_hasSubkeys inner i hs hi
+  | .bloc items, v', hs, h => by
+    simp only [populate] at h
+    simp only [HasSubkeys] at hs
+    split at h <;> simp at h
+    rename_i l hl
+    exact populateL_hasSubkeys items l hs hl
+  | .ranges ck t bs, v', hs, h => by
+    simp only [HasSubkeys, Bool.and_eq_true, Bool.not_eq_true'] at hs
+    rcases populate_ranges_inv h with ⟨k', bs', hb, _, _⟩ | ⟨c, _, hl, _⟩
+    · exact populateB_hasSubkeys bs bs' hs.2 hb
+    · rw [hl] at hs; simp at hs
+  | .plurals rule ck other forms, v', hs, h => by
+    simp only [HasSubkeys, Bool.and_eq_true, Bool.not_eq_true', Bool.or_eq_true] at hs
+    rcases populate_plurals_inv h with ⟨k', o, fs, ho, hf, _, _⟩ | ⟨l, d, f, _, hl, _⟩
+    · rcases hs.2 with h1 | h1
+      · exact populate_hasSubkeys other o h1 ho
+      · exact populateF_hasSubkeys forms fs h1 hf
+    · rw [hl] at hs; simp at hs
+termination_by structural x => x
+
+theorem populateL_hasSubkeys : ∀ (l l' : List PV), HasSubkeysL (isLitCount args) l = true →
+    populateL orc locale args l ≠ .ok l'
+  | [], l', hs, h => by simp [HasSubkeysL] at hs
+  | x :: xs, l', hs, h => by
+    simp only [populateL] at h
+    simp only [HasSubkeysL, Bool.or_eq_true] at hs
+    split at h <;> try (simp at h; done)
+    rename_i x' hx
+    split at h <;> simp at h
+    rename_i xs' hxs
+    rcases hs with h1 | h1
+    · exact populate_hasSubkeys x x' h1 hx
+    · exact populateL_hasSubkeys xs xs' h1 hxs
+termination_by structural x => x
+
+theorem populateB_hasSubkeys : ∀ (l l' : List (Range × PV)), HasSubkeysB (isLitCount args) l = true →
+    populateB orc locale args l ≠ .ok l'
+  | [], l', hs, h => by simp [HasSubkeysB] at hs
+  | (r, x) :: xs, l', hs, h => by
+    simp only [populateB] at h
+    simp only [HasSubkeysB, Bool.or_eq_true] at hs
+    split at h <;> try (simp at h; done)
+    rename_i x' hx
+    split at h <;> simp at h
+    rename_i xs' hxs
+    rcases hs with h1 | h1
+    · exact populate_hasSubkeys x x' h1 hx
+    · exact populateB_hasSubkeys xs xs' h1 hxs
+termination_by structural x => x
+
+theorem populateF_hasSubkeys : ∀ (l l' : List (Form × PV)), HasSubkeysF (isLitCount args) l = true →
+    populateF orc locale args l ≠ .ok l'
+  | [], l', hs, h => by simp [HasSubkeysF] at hs
+  | (r, x) :: xs, l', hs, h => by
+    simp only [populateF] at h
+    simp only [HasSubkeysF, Bool.or_eq_true] at hs
+    split at h <;> try (simp at h; done)
+    rename_i x' hx
+    split at h <;> simp at h
+    rename_i xs' hxs
+    rcases hs with h1 | h1
+    · exact populate_hasSubkeys x x' h1 hx
+    · exact populateF_hasSubkeys xs xs' h1 hxs
+termination_by structural x => x
+end
+
+/-! ### the only panic of `populate` -/
+
+theorem countFor_not_panic (t : RangeTy) (l : Lit) (p : String) : countFor t l ≠ some (.panic p) := by
+  cases l <;> simp only [countFor] <;> (try split) <;> (try split) <;> simp
+
+theorem findVariable_not_panic (vs : List PV) (p : String) : findVariable vs ≠ .panic p := by
+  simp only [findVariable]
+  split
+  · split <;> simp
+  · simp
+
+
+theorem withKey_panic {rule : RuleTy} {k : Str} {a : Res PV} {b : Res (List (Form × PV))} {p : String}
+    (h : (match a, b with
+      | .ok o, .ok fs => Res.ok (PV.plurals rule k o fs)
+      | .panic p, _ => .panic p
+      | _, .panic p => .panic p
+      | .err e, _ => .err e
+      | _, .err e => .err e) = .panic p) :
+    a = .panic p ∨ b = .panic p := by
+  split at h <;> simp at h
+  · subst h; exact .inl rfl
+  · subst h; exact .inr rfl
+
+mutual
+theorem populate_panic : ∀ (v : PV) (p : String),
+    populate orc locale args v = .panic p → PanicWitness orc locale args p
+  | .dflt, p, h => by simp [populate] at h
+  | .lit l, p, h => by simp [populate] at h
+  | .var k f, p, h => by simp only [populate] at h; split at h <;> simp at h
+  | .fk (.notSet _ _), p, h => by simp [populate] at h
+  | .subkeys _, p, h => by simp [populate] at h
+  | .fk (.set inner), p, h => by
+    simp only [populate] at h
+    exact populate_panic inner p h
+  | .comp key inner, p, h => by
+    simp only [populate] at h
+    split at h <;> simp at h
+    subst h
+    exact populate_panic inner _ ‹_›
+  | .bloc items, p, h => by
+    simp only [populate] at h
+    split at h <;> simp at h
+    subst h
+    exact populateL_panic items _ ‹_›
+  | .ranges ck t bs, p, h => by
+    simp only [populate] at h
+    split at h
+    · split at h <;> simp at h
+      subst h
+      exact populateB_panic bs _ ‹_›
+    · split at h
+      · rename_i l
+        split at h <;> try (simp at h; done)
+        · rename_i p' hc
+          exact absurd hc (countFor_not_panic _ _ _)
+        · exact findValue_panic _ bs p h
+      · split at h <;> try (simp at h; done)
+        · rename_i hfv; exact absurd hfv (findVariable_not_panic _ _)
+        · split at h <;> simp at h
+          subst h
+          exact populateB_panic bs _ ‹_›
+      · split at h <;> simp at h
+        subst h
+        exact populateB_panic bs _ ‹_›
+      · simp at h
+  | .plurals rule ck other forms, p, h => by
+    simp only [populate] at h
+    have hwk : ∀ k, (match populate orc locale args other, populateF orc locale args forms with
+      | .ok o, .ok fs => Res.ok (PV.plurals rule k o fs)
+      | .panic p, _ => .panic p
+      | _, .panic p => .panic p
+      | .err e, _ => .err e
+      | _, .err e => .err e) = .panic p → PanicWitness orc locale args p := by
+      intro k hk
+      rcases withKey_panic hk with h1 | h1
+      · exact populate_panic other p h1
+      · exact populateF_panic forms p h1
+    split at h
+    · exact hwk _ h
+    · rename_i ca hg
+      split at h
+      · simp at h
+      · simp at h
+      · rename_i l hns hnb
+        split at h
+        · simp at h
+        · rename_i cs hcs
+          split at h
+          · rename_i hcat
+            simp only [Res.panic.injEq] at h
+            have hd : ∃ d, litDec l = some d := by
+              cases l with
+              | str s i => exact absurd rfl (hns s i)
+              | bool b => exact absurd rfl (hnb b)
+              | signed v => exact ⟨_, rfl⟩
+              | unsigned v => exact ⟨_, rfl⟩
+              | float d => exact ⟨_, rfl⟩
+            obtain ⟨d, hd⟩ := hd
+            exact ⟨h.symm, l, d, rule, hg, hd, by simp [hcs], hcat⟩
+          · exact populate_panic other p h
+          · split at h
+            · rename_i r hr
+              subst h
+              exact selectForm_panic _ forms p hr
+            · exact populate_panic other p h
+      · split at h <;> try (simp at h; done)
+        · exact hwk _ h
+        · rename_i hfv; exact absurd hfv (findVariable_not_panic _ _)
+      · exact hwk _ h
+      · simp at h
+termination_by structural x => x
+
+theorem populateL_panic : ∀ (l : List PV) (p : String),
+    populateL orc locale args l = .panic p → PanicWitness orc locale args p
+  | [], p, h => by simp [populateL] at h
+  | x :: xs, p, h => by
+    simp only [populateL] at h
+    split at h <;> try (simp at h; done)
+    · simp only [Res.panic.injEq] at h; subst h
+      exact populate_panic x _ ‹_›
+    · split at h <;> simp at h
+      subst h
+      exact populateL_panic xs _ ‹_›
+termination_by structural x => x
+
+theorem populateB_panic : ∀ (l : List (Range × PV)) (p : String),
+    populateB orc locale args l = .panic p → PanicWitness orc locale args p
+  | [], p, h => by simp [populateB] at h
+  | (r, x) :: xs, p, h => by
+    simp only [populateB] at h
+    split at h <;> try (simp at h; done)
+    · simp only [Res.panic.injEq] at h; subst h
+      exact populate_panic x _ ‹_›
+    · split at h <;> simp at h
+      subst h
+      exact populateB_panic xs _ ‹_›
+termination_by structural x => x
+
+theorem populateF_panic : ∀ (l : List (Form × PV)) (p : String),
+    populateF orc locale args l = .panic p → PanicWitness orc locale args p
+  | [], p, h => by simp [populateF] at h
+  | (r, x) :: xs, p, h => by
+    simp only [populateF] at h
+    split at h <;> try (simp at h; done)
+    · simp only [Res.panic.injEq] at h; subst h
+      exact populate_panic x _ ‹_›
+    · split at h <;> simp at h
+      subst h
+      exact populateF_panic xs _ ‹_›
+termination_by structural x => x
+
+theorem findValue_panic (c : Dec) : ∀ (l : List (Range × PV)) (p : String),
+    findValue orc locale args c l = .panic p → PanicWitness orc locale args p
+  | [], p, h => by simp [findValue] at h
+  | (r, x) :: xs, p, h => by
+    simp only [findValue] at h
+    split at h
+    · exact populate_panic x p h
+    · exact findValue_panic c xs p h
+termination_by structural x => x
+
+theorem selectForm_panic (f : Form) : ∀ (l : List (Form × PV)) (p : String),
+    selectForm orc locale args f l = some (.panic p) → PanicWitness orc locale args p
+  | [], p, h => by simp [selectForm] at h
+  | (r, x) :: xs, p, h => by
+    simp only [selectForm] at h
+    split at h
+    · simp only [Option.some.injEq] at h
+      exact populate_panic x p h
+    · exact selectForm_panic f xs p h
+termination_by structural x => x
+end
+end
+
+/-! ### resolution leaves no unresolved foreign key -/
+
+def ResolveNoNotSet (orc : Oracle) (w : World) (dflt : Str) (fuel : Nat) : Prop :=
+  (∀ visiting phys top v v', SetClosed v = true →
+    resolvePV orc w dflt fuel visiting phys top v = .ok v' → NoNotSet v' = true) ∧
+  (∀ visiting phys top target args mj v', SetClosedK args = true →
+    resolveNode orc w dflt fuel visiting phys top target args mj = .ok v' → NoNotSet v' = true) ∧
+  (∀ visiting phys top l l', SetClosedL l = true →
+    resolveL orc w dflt fuel visiting phys top l = .ok l' → NoNotSetL l' = true) ∧
+  (∀ visiting phys top l l', SetClosedB l = true →
+    resolveB orc w dflt fuel visiting phys top l = .ok l' → NoNotSetB l' = true) ∧
+  (∀ visiting phys top l l', SetClosedF l = true →
+    resolveF orc w dflt fuel visiting phys top l = .ok l' → NoNotSetF l' = true) ∧
+  (∀ visiting phys top l l', SetClosedK l = true →
+    resolveArgs orc w dflt fuel visiting phys top l = .ok l' → NoNotSetK l' = true)
+
+theorem resolve_noNotSet (orc : Oracle) (w : World) (dflt : Str) (hW : WorldClosed w) :
+    ∀ fuel, ResolveNoNotSet orc w dflt fuel := by
+  intro fuel
+  induction fuel with
+  | zero =>
+    refine ⟨?_, ?_, ?_, ?_, ?_, ?_⟩ <;> intros <;> simp_all [resolvePV, resolveNode, resolveL, resolveB, resolveF, resolveArgs]
+  | succ fuel ih =>
+    obtain ⟨ihPV, ihNode, ihL, ihB, ihF, ihA⟩ := ih
+    refine ⟨?_, ?_, ?_, ?_, ?_, ?_⟩
+    · intro visiting phys top v v' hc h
+      cases v with
+      | dflt => simp only [resolvePV, Res.ok.injEq] at h; subst h; rfl
+      | lit l => simp only [resolvePV, Res.ok.injEq] at h; subst h; rfl
+      | var k f => simp only [resolvePV, Res.ok.injEq] at h; subst h; rfl
+      | subkeys l => simp only [resolvePV, Res.ok.injEq] at h; subst h; simpa [SetClosed] using hc
+      | fk f =>
+        cases f with
+        | set i => simp only [resolvePV, Res.ok.injEq] at h; subst h; simpa [SetClosed, NoNotSet] using hc
+        | notSet p a =>
+          simp only [resolvePV] at h
+          simp only [SetClosed] at hc
+          exact ihNode _ _ _ _ _ _ _ hc h
+      | comp k i =>
+        simp only [resolvePV] at h
+        simp only [SetClosed] at hc
+        split at h <;> simp at h
+        subst h
+        simp only [NoNotSet]
+        exact ihPV _ _ _ _ _ hc ‹_›
+      | bloc l =>
+        simp only [resolvePV] at h
+        simp only [SetClosed] at hc
+        split at h <;> simp at h
+        subst h
+        simp only [NoNotSet]
+        exact ihL _ _ _ _ _ hc ‹_›
+      | ranges ck t bs =>
+        simp only [resolvePV] at h
+        simp only [SetClosed] at hc
+        split at h <;> simp at h
+        subst h
+        simp only [NoNotSet]
+        exact ihB _ _ _ _ _ hc ‹_›
+      | plurals r ck o fs =>
+        simp only [resolvePV] at h
+        simp only [SetClosed, Bool.and_eq_true] at hc
+        split at h <;> try (simp at h; done)
+        rename_i fs' hfs
+        split at h <;> simp at h
+        rename_i o' ho
+        subst h
+        simp only [NoNotSet, Bool.and_eq_true]
+        exact ⟨ihPV _ _ _ _ _ hc.1 ho, ihF _ _ _ _ _ hc.2 hfs⟩
+    · intro visiting phys top target args mj v' hc h
+      simp only [resolveNode] at h
+      split at h <;> try (simp at h; done)
+      · split at h
+        · simp at h
+        · exact ihNode _ _ _ _ _ _ _ hc h
+      · rename_i value hnd hval
+        split at h
+        · simp at h
+        · split at h <;> try (simp at h; done)
+          rename_i value' hv'
+          split at h <;> try (simp at h; done)
+          rename_i args' ha'
+          split at h <;> simp at h
+          rename_i pv hp
+          subst h
+          simp only [NoNotSet]
+          rcases hW _ _ _ hval with ⟨l, rfl⟩ | hcl
+          · -- a subkey group is returned unchanged and then rejected by `populate`
+            cases fuel with
+            | zero => simp [resolvePV] at hv'
+            | succ m =>
+              simp only [resolvePV, Res.ok.injEq] at hv'
+              subst hv'
+              simp [populate] at hp
+          have h1 := ihPV _ _ _ _ _ hcl hv'
+          have h2 := ihA _ _ _ _ _ hc ha'
+          exact populate_NoNotSet orc top args' h2 value' pv h1 hp
+    · intro visiting phys top l l' hc h
+      cases l with
+      | nil => simp only [resolveL, Res.ok.injEq] at h; subst h; rfl
+      | cons x xs =>
+        simp only [resolveL] at h
+        simp only [SetClosedL, Bool.and_eq_true] at hc
+        split at h <;> try (simp at h; done)
+        rename_i x' hx
+        split at h <;> simp at h
+        rename_i xs' hxs
+        subst h
+        simp only [NoNotSetL, Bool.and_eq_true]
+        exact ⟨ihPV _ _ _ _ _ hc.1 hx, ihL _ _ _ _ _ hc.2 hxs⟩
+    · intro visiting phys top l l' hc h
+      cases l with
+      | nil => simp only [resolveB, Res.ok.injEq] at h; subst h; rfl
+      | cons x xs =>
+        obtain ⟨r, x⟩ := x
+        simp only [resolveB] at h
+        simp only [SetClosedB, Bool.and_eq_true] at hc
+        split at h <;> try (simp at h; done)
+        rename_i x' hx
+        split at h <;> simp at h
+        rename_i xs' hxs
+        subst h
+        simp only [NoNotSetB, Bool.and_eq_true]
+        exact ⟨ihPV _ _ _ _ _ hc.1 hx, ihB _ _ _ _ _ hc.2 hxs⟩
+    · intro visiting phys top l l' hc h
+      cases l with
+      | nil => simp only [resolveF, Res.ok.injEq] at h; subst h; rfl
+      | cons x xs =>
+        obtain ⟨r, x⟩ := x
+        simp only [resolveF] at h
+        simp only [SetClosedF, Bool.and_eq_true] at hc
+        split at h <;> try (simp at h; done)
+        rename_i x' hx
+        split at h <;> simp at h
+        rename_i xs' hxs
+        subst h
+        simp only [NoNotSetF, Bool.and_eq_true]
+        exact ⟨ihPV _ _ _ _ _ hc.1 hx, ihF _ _ _ _ _ hc.2 hxs⟩
+    · intro visiting phys top l l' hc h
+      cases l with
+      | nil => simp only [resolveArgs, Res.ok.injEq] at h; subst h; rfl
+      | cons x xs =>
+        obtain ⟨r, x⟩ := x
+        simp only [resolveArgs] at h
+        simp only [SetClosedK, Bool.and_eq_true] at hc
+        split at h <;> try (simp at h; done)
+        rename_i x' hx
+        split at h <;> simp at h
+        rename_i xs' hxs
+        subst h
+        simp only [NoNotSetK, Bool.and_eq_true]
+        exact ⟨ihPV _ _ _ _ _ hc.1 hx, ihA _ _ _ _ _ hc.2 hxs⟩
+
+/-! ### fuel monotonicity -/
+
+theorem FuelLe.refl {α : Type} (r : Res α) : FuelLe r r := .inr rfl
+
+/-- `match a with | ok i => ok (g i) | err e => err e | panic p => panic p` -/
+def mapOk {α β : Type} (g : α → β) : Res α → Res β
+  | .ok i => .ok (g i)
+  | .err e => .err e
+  | .panic p => .panic p
+
+/-- two calls in sequence, results combined -/
+def seq2 {α β γ : Type} (g : α → β → γ) (a : Res α) (b : Res β) : Res γ :=
+  match a with
+  | .err e => .err e
+  | .panic p => .panic p
+  | .ok x =>
+    match b with
+    | .ok y => .ok (g x y)
+    | .err e => .err e
+    | .panic p => .panic p
+
+theorem FuelLe.map1 {α β : Type} {a a' : Res α} (g : α → β) (h : FuelLe a a') :
+    FuelLe (mapOk g a) (mapOk g a') := by
+  rcases h with h | h
+  · subst h; exact .inl rfl
+  · subst h; exact .inr rfl
+
+theorem FuelLe.map2 {α β γ : Type} {a a' : Res α} {b b' : Res β} (g : α → β → γ)
+    (ha : FuelLe a a') (hb : FuelLe b b') : FuelLe (seq2 g a b) (seq2 g a' b') := by
+  rcases ha with ha | ha
+  · subst ha; exact .inl rfl
+  · subst ha
+    cases a' with
+    | err e => exact .inr rfl
+    | panic p => exact .inr rfl
+    | ok x =>
+      rcases hb with hb | hb
+      · subst hb; exact .inl rfl
+      · subst hb; exact .inr rfl
+
+
+section unfold
+variable (orc : Oracle) (w : World) (dflt : Str) (n : Nat) (vis : List KeyId) (phys : KeyId) (top : Str)
+
+theorem resolvePV_comp (k : Str) (i : PV) :
+    resolvePV orc w dflt (n + 1) vis phys top (.comp k i) =
+      mapOk (PV.comp k) (resolvePV orc w dflt n vis phys top i) := by
+  simp only [resolvePV]; cases resolvePV orc w dflt n vis phys top i <;> rfl
+theorem resolvePV_bloc (l : List PV) :
+    resolvePV orc w dflt (n + 1) vis phys top (.bloc l) =
+      mapOk PV.bloc (resolveL orc w dflt n vis phys top l) := by
+  simp only [resolvePV]; cases resolveL orc w dflt n vis phys top l <;> rfl
+theorem resolvePV_ranges (ck : Str) (t : RangeTy) (bs : List (Range × PV)) :
+    resolvePV orc w dflt (n + 1) vis phys top (.ranges ck t bs) =
+      mapOk (PV.ranges ck t) (resolveB orc w dflt n vis phys top bs) := by
+  simp only [resolvePV]; cases resolveB orc w dflt n vis phys top bs <;> rfl
+theorem resolvePV_plurals (r : RuleTy) (ck : Str) (o : PV) (fs : List (Form × PV)) :
+    resolvePV orc w dflt (n + 1) vis phys top (.plurals r ck o fs) =
+      seq2 (fun fs o => PV.plurals r ck o fs) (resolveF orc w dflt n vis phys top fs)
+        (resolvePV orc w dflt n vis phys top o) := by
+  simp only [resolvePV]
+  cases resolveF orc w dflt n vis phys top fs <;> try rfl
+  cases resolvePV orc w dflt n vis phys top o <;> rfl
+theorem resolvePV_notSet (target : KeyPath) (args : List (Str × PV)) :
+    resolvePV orc w dflt (n + 1) vis phys top (.fk (.notSet target args)) =
+      resolveNode orc w dflt n vis phys top target args true := by simp only [resolvePV]
+theorem resolveL_cons (x : PV) (xs : List PV) :
+    resolveL orc w dflt (n + 1) vis phys top (x :: xs) =
+      seq2 (fun x' xs' => x' :: xs') (resolvePV orc w dflt n vis phys top x)
+        (resolveL orc w dflt n vis phys top xs) := by
+  simp only [resolveL]
+  cases resolvePV orc w dflt n vis phys top x <;> try rfl
+  cases resolveL orc w dflt n vis phys top xs <;> rfl
+theorem resolveB_cons (r : Range) (x : PV) (xs : List (Range × PV)) :
+    resolveB orc w dflt (n + 1) vis phys top ((r, x) :: xs) =
+      seq2 (fun x' xs' => (r, x') :: xs') (resolvePV orc w dflt n vis phys top x)
+        (resolveB orc w dflt n vis phys top xs) := by
+  simp only [resolveB]
+  cases resolvePV orc w dflt n vis phys top x <;> try rfl
+  cases resolveB orc w dflt n vis phys top xs <;> rfl
+theorem resolveF_cons (r : Form) (x : PV) (xs : List (Form × PV)) :
+    resolveF orc w dflt (n + 1) vis phys top ((r, x) :: xs) =
+      seq2 (fun x' xs' => (r, x') :: xs') (resolvePV orc w dflt n vis phys top x)
+        (resolveF orc w dflt n vis phys top xs) := by
+  simp only [resolveF]
+  cases resolvePV orc w dflt n vis phys top x <;> try rfl
+  cases resolveF orc w dflt n vis phys top xs <;> rfl
+theorem resolveArgs_cons (r : Str) (x : PV) (xs : List (Str × PV)) :
+    resolveArgs orc w dflt (n + 1) vis phys top ((r, x) :: xs) =
+      seq2 (fun x' xs' => (r, x') :: xs') (resolvePV orc w dflt n vis phys top x)
+        (resolveArgs orc w dflt n vis phys top xs) := by
+  simp only [resolveArgs]
+  cases resolvePV orc w dflt n vis phys top x <;> try rfl
+  cases resolveArgs orc w dflt n vis phys top xs <;> rfl
+theorem resolveNode_succ (target : KeyPath) (args : List (Str × PV)) (mayJump : Bool) :
+    resolveNode orc w dflt (n + 1) vis phys top target args mayJump =
+      match w.getValueAt top target with
+      | .err e => .err e
+      | .panic p => .panic p
+      | .ok none => .err "MissingForeignKey"
+      | .ok (some .dflt) =>
+        if top == dflt || !mayJump then .err "ExplicitDefaultInDefault"
+        else resolveNode orc w dflt n vis phys dflt target args false
+      | .ok (some value) =>
+        if (phys :: vis).contains (top, target) then .err "RecursiveForeignKey" else
+        match resolvePV orc w dflt n (phys :: vis) (top, target) top value with
+        | .err e => .err e
+        | .panic p => .panic p
+        | .ok value' =>
+          match resolveArgs orc w dflt n (phys :: vis) phys top args with
+          | .err e => .err e
+          | .panic p => .panic p
+          | .ok args' =>
+            match populate orc top args' value' with
+            | .ok v => .ok (.fk (.set v))
+            | .err e => .err e
+            | .panic p => .panic p := by simp only [resolveNode]; rfl
+end unfold
+
+def ResolveMono (orc : Oracle) (w : World) (dflt : Str) (fuel : Nat) : Prop :=
+  (∀ visiting phys top v,
+    FuelLe (resolvePV orc w dflt fuel visiting phys top v) (resolvePV orc w dflt (fuel + 1) visiting phys top v)) ∧
+  (∀ visiting phys top target args mj,
+    FuelLe (resolveNode orc w dflt fuel visiting phys top target args mj)
+      (resolveNode orc w dflt (fuel + 1) visiting phys top target args mj)) ∧
+  (∀ visiting phys top l,
+    FuelLe (resolveL orc w dflt fuel visiting phys top l) (resolveL orc w dflt (fuel + 1) visiting phys top l)) ∧
+  (∀ visiting phys top l,
+    FuelLe (resolveB orc w dflt fuel visiting phys top l) (resolveB orc w dflt (fuel + 1) visiting phys top l)) ∧
+  (∀ visiting phys top l,
+    FuelLe (resolveF orc w dflt fuel visiting phys top l) (resolveF orc w dflt (fuel + 1) visiting phys top l)) ∧
+  (∀ visiting phys top l,
+    FuelLe (resolveArgs orc w dflt fuel visiting phys top l) (resolveArgs orc w dflt (fuel + 1) visiting phys top l))
+
+theorem resolve_mono_step (orc : Oracle) (w : World) (dflt : Str) :
+    ∀ fuel, ResolveMono orc w dflt fuel := by
+  intro fuel
+  induction fuel with
+  | zero =>
+    refine ⟨?_, ?_, ?_, ?_, ?_, ?_⟩ <;> intros <;> left <;>
+      simp only [resolvePV, resolveNode, resolveL, resolveB, resolveF, resolveArgs]
+  | succ fuel ih =>
+    obtain ⟨ihPV, ihNode, ihL, ihB, ihF, ihA⟩ := ih
+    refine ⟨?_, ?_, ?_, ?_, ?_, ?_⟩
+    · intro visiting phys top v
+      cases v with
+      | dflt => exact .inr (by simp only [resolvePV])
+      | lit l => exact .inr (by simp only [resolvePV])
+      | var k f => exact .inr (by simp only [resolvePV])
+      | subkeys l => exact .inr (by simp only [resolvePV])
+      | fk f =>
+        cases f with
+        | set i => exact .inr (by simp only [resolvePV])
+        | notSet p a =>
+          rw [resolvePV_notSet, resolvePV_notSet]
+          exact ihNode _ _ _ _ _ _
+      | comp k i =>
+        rw [resolvePV_comp, resolvePV_comp]
+        exact FuelLe.map1 _ (ihPV _ _ _ _)
+      | bloc l =>
+        rw [resolvePV_bloc, resolvePV_bloc]
+        exact FuelLe.map1 _ (ihL _ _ _ _)
+      | ranges ck t bs =>
+        rw [resolvePV_ranges, resolvePV_ranges]
+        exact FuelLe.map1 _ (ihB _ _ _ _)
+      | plurals r ck o fs =>
+        rw [resolvePV_plurals, resolvePV_plurals]
+        exact FuelLe.map2 _ (ihF _ _ _ _) (ihPV _ _ _ _)
+    · intro visiting phys top target args mj
+      rw [resolveNode_succ, resolveNode_succ]
+      split
+      · exact .inr rfl
+      · exact .inr rfl
+      · exact .inr rfl
+      · split
+        · exact .inr rfl
+        · exact ihNode _ _ _ _ _ _
+      · split
+        · exact .inr rfl
+        · rename_i value _ _ _
+          have h1 := ihPV (phys :: visiting) (top, target) top value
+          have h2 := ihA (phys :: visiting) phys top args
+          rcases h1 with h1 | h1
+          · rw [h1]; exact .inl rfl
+          · rw [h1]
+            cases resolvePV orc w dflt fuel (phys :: visiting) (top, target) top value with
+            | err e => exact .inr rfl
+            | panic p => exact .inr rfl
+            | ok value' =>
+              rcases h2 with h2 | h2
+              · rw [h2]; exact .inl rfl
+              · rw [h2]; exact .inr rfl
+    · intro visiting phys top l
+      cases l with
+      | nil => exact .inr (by simp only [resolveL])
+      | cons x xs =>
+        rw [resolveL_cons, resolveL_cons]
+        exact FuelLe.map2 _ (ihPV _ _ _ _) (ihL _ _ _ _)
+    · intro visiting phys top l
+      cases l with
+      | nil => exact .inr (by simp only [resolveB])
+      | cons x xs =>
+        obtain ⟨r, x⟩ := x
+        rw [resolveB_cons, resolveB_cons]
+        exact FuelLe.map2 _ (ihPV _ _ _ _) (ihB _ _ _ _)
+    · intro visiting phys top l
+      cases l with
+      | nil => exact .inr (by simp only [resolveF])
+      | cons x xs =>
+        obtain ⟨r, x⟩ := x
+        rw [resolveF_cons, resolveF_cons]
+        exact FuelLe.map2 _ (ihPV _ _ _ _) (ihF _ _ _ _)
+    · intro visiting phys top l
+      cases l with
+      | nil => exact .inr (by simp only [resolveArgs])
+      | cons x xs =>
+        obtain ⟨r, x⟩ := x
+        rw [resolveArgs_cons, resolveArgs_cons]
+        exact FuelLe.map2 _ (ihPV _ _ _ _) (ihA _ _ _ _)
+
+theorem FuelLe.trans {α : Type} {a b c : Res α} (h1 : FuelLe a b) (h2 : FuelLe b c) : FuelLe a c := by
+  rcases h1 with h1 | h1
+  · exact .inl h1
+  · rcases h2 with h2 | h2
+    · exact .inl (by rw [← h1, h2])
+    · exact .inr (by rw [h2, h1])
+
+theorem resolvePV_mono (orc : Oracle) (w : World) (dflt : Str) (visiting phys top v) :
+    ∀ {fuel fuel'}, fuel ≤ fuel' →
+    FuelLe (resolvePV orc w dflt fuel visiting phys top v) (resolvePV orc w dflt fuel' visiting phys top v) := by
+  intro fuel fuel' h
+  induction h with
+  | refl => exact FuelLe.refl _
+  | step _ ih => exact FuelLe.trans ih ((resolve_mono_step orc w dflt _).1 _ _ _ _)
+
+theorem resolveNode_mono (orc : Oracle) (w : World) (dflt : Str) (visiting phys top target args mj) :
+    ∀ {fuel fuel'}, fuel ≤ fuel' →
+    FuelLe (resolveNode orc w dflt fuel visiting phys top target args mj)
+      (resolveNode orc w dflt fuel' visiting phys top target args mj) := by
+  intro fuel fuel' h
+  induction h with
+  | refl => exact FuelLe.refl _
+  | step _ ih => exact FuelLe.trans ih ((resolve_mono_step orc w dflt _).2.1 _ _ _ _ _ _)
+
+/-! ### NoNotSet implies SetClosed -/
+mutual
+theorem NoNotSet_SetClosed : ∀ v : PV, NoNotSet v = true → SetClosed v = true
+  | .dflt, _ => rfl
+  | .lit _, _ => rfl
+  | .var _ _, _ => rfl
+  | .subkeys _, h => by simpa [SetClosed] using h
+  | .fk (.set i), h => by simpa [SetClosed, NoNotSet] using h
+  | .fk (.notSet _ _), h => by simp [NoNotSet] at h
+  | .comp _ i, h => by
+    simp only [NoNotSet] at h; simp only [SetClosed]; exact NoNotSet_SetClosed i h
+  | .bloc l, h => by
+    simp only [NoNotSet] at h; simp only [SetClosed]; exact NoNotSetL_SetClosed l h
+  | .ranges _ _ bs, h => by
+    simp only [NoNotSet] at h; simp only [SetClosed]; exact NoNotSetB_SetClosed bs h
+  | .plurals _ _ o fs, h => by
+    simp only [NoNotSet, Bool.and_eq_true] at h; simp only [SetClosed, Bool.and_eq_true]
+    exact ⟨NoNotSet_SetClosed o h.1, NoNotSetF_SetClosed fs h.2⟩
+theorem NoNotSetL_SetClosed : ∀ l : List PV, NoNotSetL l = true → SetClosedL l = true
+  | [], _ => rfl
+  | x :: xs, h => by
+    simp only [NoNotSetL, Bool.and_eq_true] at h; simp only [SetClosedL, Bool.and_eq_true]
+    exact ⟨NoNotSet_SetClosed x h.1, NoNotSetL_SetClosed xs h.2⟩
+theorem NoNotSetB_SetClosed : ∀ l : List (Range × PV), NoNotSetB l = true → SetClosedB l = true
+  | [], _ => rfl
+  | (_, x) :: xs, h => by
+    simp only [NoNotSetB, Bool.and_eq_true] at h; simp only [SetClosedB, Bool.and_eq_true]
+    exact ⟨NoNotSet_SetClosed x h.1, NoNotSetB_SetClosed xs h.2⟩
+theorem NoNotSetF_SetClosed : ∀ l : List (Form × PV), NoNotSetF l = true → SetClosedF l = true
+  | [], _ => rfl
+  | (_, x) :: xs, h => by
+    simp only [NoNotSetF, Bool.and_eq_true] at h; simp only [SetClosedF, Bool.and_eq_true]
+    exact ⟨NoNotSet_SetClosed x h.1, NoNotSetF_SetClosed xs h.2⟩
+end
+
+/-! ### resolving a resolved value is the identity -/
+section
+variable (orc : Oracle) (w : World) (dflt : Str) (vis : List KeyId) (phys : KeyId) (top : Str)
+mutual
+theorem resolvePV_id : ∀ (v : PV) (fuel : Nat), NoNotSet v = true → fuelNeed v ≤ fuel →
+    resolvePV orc w dflt fuel vis phys top v = .ok v
+  | .dflt, fuel + 1, _, _ => by simp only [resolvePV]
+  | .lit _, fuel + 1, _, _ => by simp only [resolvePV]
+  | .var _ _, fuel + 1, _, _ => by simp only [resolvePV]
+  | .subkeys _, fuel + 1, _, _ => by simp only [resolvePV]
+  | .fk (.set _), fuel + 1, _, _ => by simp only [resolvePV]
+  | .fk (.notSet _ _), _, h, _ => by simp [NoNotSet] at h
+  | .comp k i, fuel + 1, h, hf => by
+    simp only [NoNotSet] at h; simp only [fuelNeed] at hf
+    rw [resolvePV_comp, resolvePV_id i fuel h (by omega)]; rfl
+  | .bloc l, fuel + 1, h, hf => by
+    simp only [NoNotSet] at h; simp only [fuelNeed] at hf
+    rw [resolvePV_bloc, resolveL_id l fuel h (by omega)]; rfl
+  | .ranges ck t bs, fuel + 1, h, hf => by
+    simp only [NoNotSet] at h; simp only [fuelNeed] at hf
+    rw [resolvePV_ranges, resolveB_id bs fuel h (by omega)]; rfl
+  | .plurals r ck o fs, fuel + 1, h, hf => by
+    simp only [NoNotSet, Bool.and_eq_true] at h; simp only [fuelNeed] at hf
+    rw [resolvePV_plurals, resolveF_id fs fuel h.2 (by omega), resolvePV_id o fuel h.1 (by omega)]; rfl
+  | .dflt, 0, _, hf => by simp [fuelNeed] at hf
+  | .lit _, 0, _, hf => by simp [fuelNeed] at hf
+  | .var _ _, 0, _, hf => by simp [fuelNeed] at hf
+  | .subkeys _, 0, _, hf => by simp [fuelNeed] at hf
+  | .fk (.set _), 0, _, hf => by simp [fuelNeed] at hf
+  | .comp _ _, 0, _, hf => by simp [fuelNeed] at hf
+  | .bloc _, 0, _, hf => by simp [fuelNeed] at hf
+  | .ranges _ _ _, 0, _, hf => by simp [fuelNeed] at hf
+  | .plurals _ _ _ _, 0, _, hf => by simp [fuelNeed] at hf
+termination_by structural x => x
+theorem resolveL_id : ∀ (l : List PV) (fuel : Nat), NoNotSetL l = true → fuelNeedL l ≤ fuel →
+    resolveL orc w dflt fuel vis phys top l = .ok l
+  | [], fuel + 1, _, _ => by simp only [resolveL]
+  | [], 0, _, hf => by simp [fuelNeedL] at hf
+  | _ :: _, 0, _, hf => by simp [fuelNeedL] at hf
+  | x :: xs, fuel + 1, h, hf => by
+    simp only [NoNotSetL, Bool.and_eq_true] at h; simp only [fuelNeedL] at hf
+    rw [resolveL_cons, resolvePV_id x fuel h.1 (by omega), resolveL_id xs fuel h.2 (by omega)]; rfl
+termination_by structural x => x
+theorem resolveB_id : ∀ (l : List (Range × PV)) (fuel : Nat), NoNotSetB l = true → fuelNeedB l ≤ fuel →
+    resolveB orc w dflt fuel vis phys top l = .ok l
+  | [], fuel + 1, _, _ => by simp only [resolveB]
+  | [], 0, _, hf => by simp [fuelNeedB] at hf
+  | _ :: _, 0, _, hf => by simp [fuelNeedB] at hf
+  | (r, x) :: xs, fuel + 1, h, hf => by
+    simp only [NoNotSetB, Bool.and_eq_true] at h; simp only [fuelNeedB] at hf
+    rw [resolveB_cons, resolvePV_id x fuel h.1 (by omega), resolveB_id xs fuel h.2 (by omega)]; rfl
+termination_by structural x => x
+theorem resolveF_id : ∀ (l : List (Form × PV)) (fuel : Nat), NoNotSetF l = true → fuelNeedF l ≤ fuel →
+    resolveF orc w dflt fuel vis phys top l = .ok l
+  | [], fuel + 1, _, _ => by simp only [resolveF]
+  | [], 0, _, hf => by simp [fuelNeedF] at hf
+  | _ :: _, 0, _, hf => by simp [fuelNeedF] at hf
+  | (r, x) :: xs, fuel + 1, h, hf => by
+    simp only [NoNotSetF, Bool.and_eq_true] at h; simp only [fuelNeedF] at hf
+    rw [resolveF_cons, resolvePV_id x fuel h.1 (by omega), resolveF_id xs fuel h.2 (by omega)]; rfl
+termination_by structural x => x
+end
+end
+
+/-! ### node-level facts -/
+
+section node
+variable (orc : Oracle) (w : World) (dflt : Str) (fuel : Nat) (vis : List KeyId) (phys : KeyId) (top : Str)
+  (target : KeyPath) (args : List (Str × PV)) (mj : Bool)
+
+theorem resolveNode_missing (h : w.getValueAt top target = .ok none) :
+    resolveNode orc w dflt (fuel + 1) vis phys top target args mj = .err "MissingForeignKey" := by
+  rw [resolveNode_succ, h]
+
+theorem resolveNode_recursive {value : PV} (h : w.getValueAt top target = .ok (some value))
+    (hnd : value ≠ .dflt) (hin : (top, target) ∈ phys :: vis) :
+    resolveNode orc w dflt (fuel + 1) vis phys top target args mj = .err "RecursiveForeignKey" := by
+  rw [resolveNode_succ, h]
+  have hc : (phys :: vis).contains (top, target) = true := by simpa using hin
+  split
+  · rename_i heq; simp at heq
+  · rename_i heq; simp at heq
+  · rename_i heq; simp at heq
+  · rename_i heq; simp at heq; exact absurd heq hnd
+  · rename_i v _ heq
+    simp only [Res.ok.injEq, Option.some.injEq] at heq
+    subst heq
+    rw [if_pos hc]
+
+theorem resolveNode_ok_eq {value value' v : PV} {args' : List (Str × PV)}
+    (h : w.getValueAt top target = .ok (some value)) (hnd : value ≠ .dflt)
+    (hin : (phys :: vis).contains (top, target) = false)
+    (hv : resolvePV orc w dflt fuel (phys :: vis) (top, target) top value = .ok value')
+    (ha : resolveArgs orc w dflt fuel (phys :: vis) phys top args = .ok args')
+    (hp : populate orc top args' value' = .ok v) :
+    resolveNode orc w dflt (fuel + 1) vis phys top target args mj = .ok (.fk (.set v)) := by
+  rw [resolveNode_succ, h]
+  split
+  · rename_i heq; simp at heq
+  · rename_i heq; simp at heq
+  · rename_i heq; simp at heq
+  · rename_i heq; simp at heq; exact absurd heq hnd
+  · rename_i v _ heq
+    simp only [Res.ok.injEq, Option.some.injEq] at heq
+    subst heq
+    rw [hin, hv, ha]
+    simp only [Bool.false_eq_true, if_false, hp]
+
+/-- what a successful node resolution is made of -/
+theorem resolveNode_ok_inv {value r : PV}
+    (h : w.getValueAt top target = .ok (some value)) (hnd : value ≠ .dflt)
+    (hr : resolveNode orc w dflt (fuel + 1) vis phys top target args mj = .ok r) :
+    ∃ value' args' v, (top, target) ∉ phys :: vis ∧
+      resolvePV orc w dflt fuel (phys :: vis) (top, target) top value = .ok value' ∧
+      resolveArgs orc w dflt fuel (phys :: vis) phys top args = .ok args' ∧
+      populate orc top args' value' = .ok v ∧ r = .fk (.set v) := by
+  rw [resolveNode_succ, h] at hr
+  split at hr
+  · rename_i heq; simp at heq
+  · rename_i heq; simp at heq
+  · rename_i heq; simp at heq
+  · rename_i heq; simp at heq; exact absurd heq hnd
+  · rename_i v _ heq
+    simp only [Res.ok.injEq, Option.some.injEq] at heq
+    subst heq
+    split at hr
+    · simp at hr
+    · rename_i hc
+      split at hr <;> try (simp at hr; done)
+      rename_i value' hv
+      split at hr <;> try (simp at hr; done)
+      rename_i args' ha
+      split at hr <;> simp at hr
+      rename_i pv hp
+      exact ⟨value', args', pv, by simpa using hc, hv, ha, hp, hr.symm⟩
+end node
+
+theorem resolveArgs_id (orc : Oracle) (w : World) (dflt : Str) (vis : List KeyId) (phys : KeyId) (top : Str) :
+    ∀ (l : List (Str × PV)) (fuel : Nat), NoNotSetK l = true → fuelNeedK l ≤ fuel →
+    resolveArgs orc w dflt fuel vis phys top l = .ok l
+  | [], fuel + 1, _, _ => by simp only [resolveArgs]
+  | [], 0, _, hf => by simp [fuelNeedK] at hf
+  | _ :: _, 0, _, hf => by simp [fuelNeedK] at hf
+  | (r, x) :: xs, fuel + 1, h, hf => by
+    simp only [NoNotSetK, Bool.and_eq_true] at h; simp only [fuelNeedK] at hf
+    rw [resolveArgs_cons, resolvePV_id orc w dflt vis phys top x fuel h.1 (by omega),
+      resolveArgs_id orc w dflt vis phys top xs fuel h.2 (by omega)]; rfl
+
+theorem getValueAt_flat (name t : Str) (keys : List (Str × PV)) (ss : List Str) (c : Nat) (k : Str) :
+    World.getValueAt ⟨false, [⟨none, [Loc.mk name t keys ss c]⟩]⟩ name ⟨none, [k]⟩ = .ok (AMap.get? k keys) := by
+  simp [World.getValueAt, Loc.name, World.locGet, Loc.keys]
+
+
+/-! ### `WorldClosed` for flat worlds -/
+
+theorem locGet_noNotSet : ∀ (path : List Str) (keys : List (Str × PV)) (value : PV),
+    NoNotSetK keys = true → World.locGet keys path = .ok (some value) → NoNotSet value = true
+  | [], keys, value, _, h => by simp [World.locGet] at h
+  | [k], keys, value, hk, h => by
+    simp only [World.locGet, Res.ok.injEq] at h
+    exact NoNotSetK_get hk h
+  | k :: k2 :: rest, keys, value, hk, h => by
+    rw [World.locGet] at h
+    · split at h
+      · simp at h
+      · rename_i l hg
+        have h1 := NoNotSetK_get hk hg
+        obtain ⟨n, t, ks, s, c⟩ := l
+        simp only [NoNotSet] at h1
+        exact locGet_noNotSet (k2 :: rest) ks value h1 h
+      · simp at h
+      · simp at h
+    · simp
+
+theorem locGet_closed (keys : List (Str × PV))
+    (hk : ∀ k v, AMap.get? k keys = some v → (∃ l, v = .subkeys l) ∨ SetClosed v = true)
+    (hs : ∀ k l, AMap.get? k keys = some (.subkeys l) → NoNotSet (.subkeys l) = true) :
+    ∀ path value, World.locGet keys path = .ok (some value) →
+      (∃ l, value = .subkeys l) ∨ SetClosed value = true := by
+  intro path value h
+  match path with
+  | [] => simp [World.locGet] at h
+  | [k] =>
+    simp only [World.locGet, Res.ok.injEq] at h
+    exact hk k value h
+  | k :: k2 :: rest =>
+    rw [World.locGet] at h
+    · split at h
+      · simp at h
+      · rename_i l hg
+        have h1 := hs k _ hg
+        obtain ⟨n, t, ks, s, c⟩ := l
+        simp only [NoNotSet] at h1
+        exact .inr (NoNotSet_SetClosed _ (locGet_noNotSet (k2 :: rest) ks value h1 h))
+      · simp at h
+      · simp at h
+    · simp
+
+/-- a one-namespace, one-locale world is `WorldClosed` as soon as its top-level values are -/
+theorem worldClosed_flat (name t : Str) (keys : List (Str × PV)) (ss : List Str) (c : Nat)
+    (hk : ∀ k v, AMap.get? k keys = some v → (∃ l, v = .subkeys l) ∨ SetClosed v = true)
+    (hs : ∀ k l, AMap.get? k keys = some (.subkeys l) → NoNotSet (.subkeys l) = true) :
+    WorldClosed ⟨false, [⟨none, [Loc.mk name t keys ss c]⟩]⟩ := by
+  intro top target value h
+  simp only [World.getValueAt] at h
+  split at h
+  · simp at h
+  · simp at h
+  · simp only [List.find?] at h
+    split at h
+    · rename_i l hl
+      split at hl
+      · simp only [Option.some.injEq] at hl
+        subst hl
+        exact locGet_closed keys hk hs _ _ h
+      · simp at hl
+    · simp at h
+  · rename_i heq; simp at heq
+
+/-! ### successful results do not depend on `visiting` -/
+
+theorem mapOk_ok {α β : Type} {g : α → β} {a : Res α} {r : β} (h : mapOk g a = .ok r) :
+    ∃ x, a = .ok x ∧ r = g x := by
+  cases a with
+  | ok x => exact ⟨x, rfl, by simpa [mapOk] using h.symm⟩
+  | err e => simp [mapOk] at h
+  | panic p => simp [mapOk] at h
+
+theorem seq2_ok {α β γ : Type} {g : α → β → γ} {a : Res α} {b : Res β} {r : γ}
+    (h : seq2 g a b = .ok r) : ∃ x y, a = .ok x ∧ b = .ok y ∧ r = g x y := by
+  cases a with
+  | err e => simp [seq2] at h
+  | panic p => simp [seq2] at h
+  | ok x =>
+    cases b with
+    | err e => simp [seq2] at h
+    | panic p => simp [seq2] at h
+    | ok y => exact ⟨x, y, rfl, rfl, by simpa [seq2] using h.symm⟩
+
+/-- successful results do not depend on the keys "in progress": a smaller `visiting` list gives the same -/
+def ResolveVis (orc : Oracle) (w : World) (dflt : Str) (fuel : Nat) : Prop :=
+  (∀ V V' phys top v v', (∀ x ∈ V', x ∈ V) →
+    resolvePV orc w dflt fuel V phys top v = .ok v' → resolvePV orc w dflt fuel V' phys top v = .ok v') ∧
+  (∀ V V' phys top target args mj v', (∀ x ∈ V', x ∈ V) →
+    resolveNode orc w dflt fuel V phys top target args mj = .ok v' →
+    resolveNode orc w dflt fuel V' phys top target args mj = .ok v') ∧
+  (∀ V V' phys top l l', (∀ x ∈ V', x ∈ V) →
+    resolveL orc w dflt fuel V phys top l = .ok l' → resolveL orc w dflt fuel V' phys top l = .ok l') ∧
+  (∀ V V' phys top l l', (∀ x ∈ V', x ∈ V) →
+    resolveB orc w dflt fuel V phys top l = .ok l' → resolveB orc w dflt fuel V' phys top l = .ok l') ∧
+  (∀ V V' phys top l l', (∀ x ∈ V', x ∈ V) →
+    resolveF orc w dflt fuel V phys top l = .ok l' → resolveF orc w dflt fuel V' phys top l = .ok l') ∧
+  (∀ V V' phys top l l', (∀ x ∈ V', x ∈ V) →
+    resolveArgs orc w dflt fuel V phys top l = .ok l' → resolveArgs orc w dflt fuel V' phys top l = .ok l')
+
+theorem resolve_vis (orc : Oracle) (w : World) (dflt : Str) : ∀ fuel, ResolveVis orc w dflt fuel := by
+  intro fuel
+  induction fuel with
+  | zero =>
+    refine ⟨?_, ?_, ?_, ?_, ?_, ?_⟩ <;> intros <;>
+      simp_all [resolvePV, resolveNode, resolveL, resolveB, resolveF, resolveArgs]
+  | succ fuel ih =>
+    obtain ⟨ihPV, ihNode, ihL, ihB, ihF, ihA⟩ := ih
+    refine ⟨?_, ?_, ?_, ?_, ?_, ?_⟩
+    · intro V V' phys top v v' hs h
+      cases v with
+      | dflt => simpa only [resolvePV] using h
+      | lit l => simpa only [resolvePV] using h
+      | var k f => simpa only [resolvePV] using h
+      | subkeys l => simpa only [resolvePV] using h
+      | fk f =>
+        cases f with
+        | set i => simpa only [resolvePV] using h
+        | notSet p a =>
+          rw [resolvePV_notSet] at h ⊢
+          exact ihNode _ _ _ _ _ _ _ _ hs h
+      | comp k i =>
+        rw [resolvePV_comp] at h ⊢
+        obtain ⟨x, hx, rfl⟩ := mapOk_ok h
+        rw [ihPV _ _ _ _ _ _ hs hx]; rfl
+      | bloc l =>
+        rw [resolvePV_bloc] at h ⊢
+        obtain ⟨x, hx, rfl⟩ := mapOk_ok h
+        rw [ihL _ _ _ _ _ _ hs hx]; rfl
+      | ranges ck t bs =>
+        rw [resolvePV_ranges] at h ⊢
+        obtain ⟨x, hx, rfl⟩ := mapOk_ok h
+        rw [ihB _ _ _ _ _ _ hs hx]; rfl
+      | plurals r ck o fs =>
+        rw [resolvePV_plurals] at h ⊢
+        obtain ⟨x, y, hx, hy, rfl⟩ := seq2_ok h
+        rw [ihF _ _ _ _ _ _ hs hx, ihPV _ _ _ _ _ _ hs hy]; rfl
+    · intro V V' phys top target args mj v' hs h
+      rw [resolveNode_succ] at h ⊢
+      have hs' : ∀ x ∈ phys :: V', x ∈ phys :: V := by
+        intro x hx
+        rcases List.mem_cons.mp hx with rfl | hx
+        · exact List.mem_cons_self
+        · exact List.mem_cons_of_mem _ (hs x hx)
+      split <;> rename_i hget <;> rw [hget] at h <;> simp only at h
+      · exact h
+      · exact h
+      · exact h
+      · split at h
+        · simp at h
+        · rename_i hc
+          rw [if_neg hc]
+          exact ihNode _ _ _ _ _ _ _ _ hs h
+      · split at h
+        · simp at h
+        · rename_i hc
+          have hc' : ¬ (phys :: V').contains (top, target) = true := by
+            intro hcon
+            apply hc
+            have := List.contains_iff_mem.mp hcon
+            exact List.contains_iff_mem.mpr (hs' _ this)
+          rw [if_neg hc']
+          split at h <;> try (simp at h; done)
+          rename_i value' hv
+          split at h <;> try (simp at h; done)
+          rename_i args' ha
+          rw [ihPV _ _ _ _ _ _ hs' hv, ihA _ _ _ _ _ _ hs' ha]
+          exact h
+    · intro V V' phys top l l' hs h
+      cases l with
+      | nil => simpa only [resolveL] using h
+      | cons x xs =>
+        rw [resolveL_cons] at h ⊢
+        obtain ⟨a, b, ha, hb, rfl⟩ := seq2_ok h
+        rw [ihPV _ _ _ _ _ _ hs ha, ihL _ _ _ _ _ _ hs hb]; rfl
+    · intro V V' phys top l l' hs h
+      cases l with
+      | nil => simpa only [resolveB] using h
+      | cons x xs =>
+        obtain ⟨r, x⟩ := x
+        rw [resolveB_cons] at h ⊢
+        obtain ⟨a, b, ha, hb, rfl⟩ := seq2_ok h
+        rw [ihPV _ _ _ _ _ _ hs ha, ihB _ _ _ _ _ _ hs hb]; rfl
+    · intro V V' phys top l l' hs h
+      cases l with
+      | nil => simpa only [resolveF] using h
+      | cons x xs =>
+        obtain ⟨r, x⟩ := x
+        rw [resolveF_cons] at h ⊢
+        obtain ⟨a, b, ha, hb, rfl⟩ := seq2_ok h
+        rw [ihPV _ _ _ _ _ _ hs ha, ihF _ _ _ _ _ _ hs hb]; rfl
+    · intro V V' phys top l l' hs h
+      cases l with
+      | nil => simpa only [resolveArgs] using h
+      | cons x xs =>
+        obtain ⟨r, x⟩ := x
+        rw [resolveArgs_cons] at h ⊢
+        obtain ⟨a, b, ha, hb, rfl⟩ := seq2_ok h
+        rw [ihPV _ _ _ _ _ _ hs ha, ihA _ _ _ _ _ _ hs hb]; rfl
 
 end I18nVerif.Foreign
